@@ -535,7 +535,10 @@ namespace vf
           case 0: { double f = double(t.range(0, 14) + 2) / 4.0; if(t.flag(1, 4)) f = -f; for(auto& x : v) x = narrow<DT>(x * f); s->upd = "scale:" + std::to_string(f); break; }
           case 1: v = gen_values_version<DT>(t, cs, valcls, blkcls); s->upd = "replace"; break;
           case 2: { int i = t.range(0, n - 1); double* d = &v[(size_t)cs.find(i, i) * BB]; double f = double(t.range(0, 6) + 2); for(int a = 0; a < BB; ++a) d[a] = narrow<DT>(d[a] * f); s->upd = "diag-entry:" + std::to_string(i) + "*" + std::to_string(f); break; }
-          default: { int e = t.range(0, (int)cs.nnzb() - 1); double* d = &v[(size_t)e * BB]; for(int a = 0; a < BB; ++a) d[a] = narrow<DT>(d[a] + double(t.range(0, 8)) - 3.5); s->upd = "entry:" + std::to_string(e); break; }
+          default: { int e = t.range(0, (int)cs.nnzb() - 1); double* d = &v[(size_t)e * BB]; const double add = double(t.range(0, 8)) - 3.5;
+            // stay inside the block family (circulant + c*ones is circulant; diagonal blocks: shift the diagonal only)
+            if(cs.blkc == 2) { for(int a = 0; a < B; ++a) d[a * B + a] = narrow<DT>(d[a * B + a] + add); }
+            else for(int a = 0; a < BB; ++a) d[a] = narrow<DT>(d[a] + add); s->upd = "entry:" + std::to_string(e) + "+" + std::to_string(add); break; }
           }
           legalise<DT>(cs, v);
           cs.ver.push_back(v);
